@@ -580,31 +580,44 @@ Proof.
     + kopen. rewrite Z.eqb_refl. reflexivity.
 Qed.
 
+(* eventfd creation is unavailable now: past the cut, and the plain eventfd call is missing too *)
+Definition efd_off (k : kernel) : bool := efd_cut k && no_eventfd (flt k).
+
+Lemma kstable_set_nefd : forall k k1 n, kstable k k1 -> kstable k (k_set_nefd k1 n).
+Proof. intros k k1 n []. constructor; assumption. Qed.
+Lemma kfresh_set_nefd : forall k n, kfresh k -> kfresh (k_set_nefd k n).
+Proof. intros k n H. exact H. Qed.
+
 Lemma eventfd_spec : forall k b, kfresh k ->
   match k_eventfd k b with
   | (k', inl fd) => fd = next_fd k /\ kstable k k' /\ kfresh k' /\ k_open k' fd = Some (vfd0 K_EVENTFD) /\
-                    emfile (flt k) = false /\ no_eventfd (flt k) = false
+                    emfile (flt k) = false /\ efd_off k = false
   | (k', inr e) => k' = k /\ ((e = EMFILE /\ emfile (flt k) = true) \/
                               (e = ENOSYS /\ emfile (flt k) = false /\
-                               (no_eventfd (flt k) = true \/ (b = true /\ no_eventfd2 (flt k) = true))))
+                               (efd_off k = true \/ (b = true /\ no_eventfd2 (flt k) = true))))
   end.
 Proof.
-  intros k b F. unfold k_eventfd. destruct (emfile (flt k)) eqn:E; [split; [reflexivity|left; tauto]|].
-  destruct (no_eventfd (flt k)) eqn:N1; cbn [orb].
-  { split; [reflexivity|right; tauto]. }
-  destruct b; cbn [andb]; [destruct (no_eventfd2 (flt k)) eqn:N2; [split; [reflexivity|right; tauto]|]|].
-  all: destruct (alloc_spec k K_EVENTFD F) as (A1 & A2 & A3 & A4 & A5 & A6);
-    destruct (k_alloc k K_EVENTFD) as [fd k1]; cbn [fst snd] in *; subst fd;
-    (split; [reflexivity|]); (split; [assumption|]); (split; [assumption|]);
-    (split; [apply k_get_open; [assumption|reflexivity]|tauto]).
+  intros k b F. unfold k_eventfd, efd_off. destruct (emfile (flt k)) eqn:E; [split; [reflexivity|left; tauto]|].
+  destruct (efd_cut k) eqn:CUT; cbn [andb].
+  - destruct (no_eventfd (flt k)) eqn:N1; cbn [orb].
+    { split; [reflexivity|right; tauto]. }
+    destruct b; cbn [andb]; [destruct (no_eventfd2 (flt k)) eqn:N2; [split; [reflexivity|right; tauto]|]|].
+    all: destruct (alloc_spec k K_EVENTFD F) as (A1 & A2 & A3 & A4 & A5 & A6);
+      destruct (k_alloc k K_EVENTFD) as [fd k1]; cbn [fst snd] in *; subst fd;
+      (split; [reflexivity|]); (split; [apply kstable_set_nefd; assumption|]); (split; [apply kfresh_set_nefd; assumption|]);
+      (split; [apply k_get_open; [assumption|reflexivity]|tauto]).
+  - destruct (alloc_spec k K_EVENTFD F) as (A1 & A2 & A3 & A4 & A5 & A6);
+      destruct (k_alloc k K_EVENTFD) as [fd k1]; cbn [fst snd] in *; subst fd;
+      (split; [reflexivity|]); (split; [apply kstable_set_nefd; assumption|]); (split; [apply kfresh_set_nefd; assumption|]);
+      (split; [apply k_get_open; [assumption|reflexivity]|tauto]).
 Qed.
 
 Lemma grab_spec : forall k in_use, kfresh k -> (in_use = 0 \/ in_use = 1 \/ in_use = 2) ->
   match eventfd_grab k in_use with
   | (k', inl fd, u) => fd = next_fd k /\ kstable k k' /\ kfresh k' /\ k_open k' fd = Some (vfd0 K_EVENTFD) /\
-                       no_eventfd (flt k) = false /\ emfile (flt k) = false /\ (u = 1 \/ u = 2) /\ in_use <> 0
+                       efd_off k = false /\ emfile (flt k) = false /\ (u = 1 \/ u = 2) /\ in_use <> 0
   | (k', inr e, u) => k' = k /\
-       ((is_enosys e = true /\ u = 0 /\ (in_use = 0 \/ no_eventfd (flt k) = true)) \/
+       ((is_enosys e = true /\ u = 0 /\ (in_use = 0 \/ efd_off k = true)) \/
         (is_enosys e = false /\ emfile (flt k) = true /\ u = in_use /\ in_use <> 0))
   end.
 Proof.
@@ -617,9 +630,9 @@ Proof.
              end
            else (k, inr ENOSYS, 0)) with
     | (k', inl fd, u) => fd = next_fd k /\ kstable k k' /\ kfresh k' /\ k_open k' fd = Some (vfd0 K_EVENTFD) /\
-                         no_eventfd (flt k) = false /\ emfile (flt k) = false /\ u = iu /\ iu <> 0
+                         efd_off k = false /\ emfile (flt k) = false /\ u = iu /\ iu <> 0
     | (k', inr e, u) => k' = k /\
-         ((is_enosys e = true /\ u = 0 /\ (iu = 0 \/ no_eventfd (flt k) = true)) \/
+         ((is_enosys e = true /\ u = 0 /\ (iu = 0 \/ efd_off k = true)) \/
           (is_enosys e = false /\ emfile (flt k) = true /\ u = iu /\ iu <> 0))
     end).
   { intros iu [->| ->]; cbn [Z.eqb negb].
